@@ -40,19 +40,15 @@ def msRun (n128 : Nat) (cmds : List String) : Option (MocSet × Bool) := do
       let s ← st
       -- command-line domain: an identifier is stored on 48 bits (`check_id`); a larger one is refused before the
       -- model is consulted, the file is unchanged
-      if e.id > 2 ^ 48 - 1 then ok := false
-      else
-        let r := msAppend s e
-        st := some r.1; ok := r.2
+      let r := msAppendCmd s e
+      st := some r.1; ok := r.2
     | ["cs", ns, ids] =>
       let ns ← ns.toNat?
       let ids ← (ids.splitOn ",").mapM (·.toNat?)
       let s ← st
       -- `void` (0) is the end-of-list marker, not a status a MOC can be given: refused, file unchanged
-      if ns = 0 then ok := false
-      else
-        let r := msChgStatus s ns ids
-        st := some r.1; ok := r.2
+      let r := msChgStatusCmd s ns ids
+      st := some r.1; ok := r.2
     | ["pg", n] =>
       let s ← st
       let r := msPurge s (n.toNat?)
